@@ -1091,7 +1091,7 @@ def tick(ctx, what):
 
 def run(ctx):
     thorough = ctx.tier == 'thorough'
-    ok1 = ctx.obligations_stage(PROPS, extra_targets=['C13/Examples.vo', 'C13/Spec.vo'])
+    ok1 = ctx.obligations_stage(PROPS, extra_targets=['C13/Examples.vo', 'C13/ExamplesSep.vo', 'C13/Spec.vo'])
     ctx.assumptions += [
         'model: hand transcription of Expr.hash, AsmVar/BasisFun/InputField/Parameter/VForm.hash, compile_vform, compile_cython_module (coq/C13/Model.v); '
         'per-class attribute/key tables regenerated from pyiga/vform.py on every run (translate/exprclasses.py -> coq/gen/C13_ExprKeys.v)',
@@ -1213,7 +1213,7 @@ META = {
                   'dimension, arity, component count, spacetime/boundary flags, every basis function, input, variable and expression (form_key_separates), and for '
                   'every sequence of (form, on_demand) requests from a cache pre-seeded with fresh pairs compile_vform returns what compiling the requested form '
                   'from scratch gives (cache_returns_requested); equal source gives equal module name and the disk level returns the requested module '
-                  '(disk_name_functional, disk_cache_returns_requested under digest injectivity); a shipped run of statements accepted by reorder_ok computes the same '
+                  '(disk_name_functional, disk_cache_returns_requested under digest injectivity); every listed difference separates the keys at any depth of the form (token_difference_separates, expr_token_separates, let_token_separates, var_field_separates, form_field_difference_separates, on_demand_separates); the two cache levels composed return, for every request sequence, the class loaded from the module compiled from the source generated for the requested form (two_level_returns_requested, disk_name_injective); histories of add()/hash()/compile on form objects never use a stale memoised hash (hist_returns_requested); a shipped run of statements accepted by reorder_ok computes the same '
                   'values as the regenerated run for every meaning of the statements (reorder_sound). The table is regenerated from /repo\'s vform.py on every run and '
                   '`covers` re-checked; the model key relation is compared exactly with vf.hash() on all pairs inside ~20 case files (~27000 pairs, quick tier), the memo model\'s hit/miss trace '
                   'with compile_vform on ~280 request sequences, Model.inthash/floathash with the interpreter\'s hash() on 310 numbers; the property (equal hash => '
